@@ -357,5 +357,3 @@ type replayResult struct {
 	TestSrc   string            `json:"test_source,omitempty"`
 	Note      string            `json:"note,omitempty"`
 }
-
-func (eng *Engine) replay(o *Obligation, work string) *replayResult { return nil }
